@@ -66,6 +66,23 @@ def to_lib(modkey, Pt, deg, rng=None, scale=None, inf_rep=None, classes=None):
 
 
 def rand_scale(F, rng):
+    """A non-zero projective scale factor: usually uniformly random, about one time in four a SPECIAL one (a coefficient
+    zero, all coefficients equal, small, p-1, a value related to CPython's int-hash modulus, the twists' change-of-basis
+    shifts 1 and 9)."""
+    if rng.random() < 0.25:
+        p = F.p
+        c = rng.choice([1, 2, 7, p - 1, (p + 1) // 2, ((1 << 61) - 1) % p or 3, rng.randrange(1, p)])
+        if F.k == 1:
+            return (c % p,)
+        if F.k == 2:
+            return rng.choice([(c, 0), (0, c), (c, c), ((-c) % p, c), (9 * c % p, c), (c, 9 * c % p)])
+        k = F.k
+        t = [0] * k
+        t[rng.randrange(k)] = c
+        if rng.random() < 0.5:
+            t[rng.randrange(k)] = rng.randrange(1, p)
+        if any(t):
+            return tuple(t)
     while True:
         s = F.rand(rng)
         if any(s):
